@@ -243,6 +243,7 @@ class GenOpts:
         self.tuples_with_idents = True
         self.redundant_parens = 0.15
         self.ident_pool = IDENT_POOL
+        self.max_nodes = 40         # budget of conditional nodes per program
         self.__dict__.update(kw)
 
 
@@ -353,13 +354,19 @@ def gen_program(rng, opts=None):
             groups[rng.randrange(k)] = (groups[0][0], "1")
         return ("ret", groups)
 
+    budget = [opts.max_nodes]
+
     def gen_cond(depth):
-        if depth <= 0 or rng.random() > (opts.p_cond if depth == opts.max_depth else 0.5):
+        if depth <= 0 or budget[0] <= 0 or rng.random() > (opts.p_cond if depth == opts.max_depth else 0.5):
             return gen_ret()
+        budget[0] -= 1
         return ("if", gen_pred(rng.randint(0, opts.max_pred_depth)), gen_cond(depth - 1), gen_sub(depth, rng.randint(0, opts.max_chain)))
 
     def gen_sub(depth, chain):
-        if chain > 0 and rng.random() < 0.6:
+        if budget[0] <= 0:
+            return None
+        if chain > 0 and rng.random() < (0.6 if opts.max_chain < 10 else 0.93):
+            budget[0] -= 1
             return ("elif", gen_pred(rng.randint(0, opts.max_pred_depth)), gen_cond(depth - 1), gen_sub(depth, chain - 1))
         if rng.random() < opts.p_else:
             return ("else", gen_cond(depth - 1))
